@@ -12,6 +12,7 @@ import (
 	"sort"
 	"strings"
 	"sync"
+	"sync/atomic"
 	"time"
 
 	"github.com/MichaelMure/git-bug/cache"
@@ -127,6 +128,7 @@ func one(cfg Config) *Result {
 		mu.Unlock()
 	}
 	var wg sync.WaitGroup
+	var progress int64
 	start := make(chan struct{})
 	for g := 1; g <= cfg.Workers; g++ {
 		wg.Add(1)
@@ -143,6 +145,7 @@ func one(cfg Config) *Result {
 			var private []entity.Id
 			<-start
 			for k := 0; k < cfg.Calls; k++ {
+				atomic.AddInt64(&progress, 1)
 				choice := r.n(10)
 				var id entity.Id
 				if cfg.Shared > 0 && (choice < 6 || len(private) == 0) {
@@ -211,9 +214,27 @@ func one(cfg Config) *Result {
 	done := make(chan struct{})
 	go func() { wg.Wait(); close(done) }()
 	close(start)
-	select {
-	case <-done:
-	case <-time.After(15 * time.Second):
+	// a deadlock is the absence of progress, not slowness: no call completed anywhere for 15 seconds
+	stuck := false
+	last, idle := int64(-1), 0
+watch:
+	for {
+		select {
+		case <-done:
+			break watch
+		case <-time.After(time.Second):
+			if p := atomic.LoadInt64(&progress); p == last {
+				idle++
+			} else {
+				last, idle = p, 0
+			}
+			if idle >= 15 {
+				stuck = true
+				break watch
+			}
+		}
+	}
+	if stuck {
 		res.Deadlock = true
 		mu.Lock()
 		res.MayEvict = cfg.Size < len(bugIds)
